@@ -25,6 +25,8 @@ type evAlpha struct {
 	// LagHead: a held trusted-head request may be answered with the header gossip has already
 	// delivered (the current top) or the one right above the trusted head
 	LagHead bool
+	// DupStale: duplicate / stale deliveries only (a small part of Invalid)
+	DupStale bool
 }
 
 func enabledEvents(w *SWorld, a evAlpha) []Ev {
@@ -74,6 +76,9 @@ func enabledEvents(w *SWorld, a evAlpha) []Ev {
 		evs = append(evs, Ev{K: "deliver", A: "dup"}, Ev{K: "deliver", A: "stale"}, Ev{K: "deliver", A: "forged-adj"},
 			Ev{K: "deliver", A: "forged-far", D: 4}, Ev{K: "deliver", A: "badlink"}, Ev{K: "deliver", A: "wrongchain"},
 			Ev{K: "deliver", A: "future"})
+	}
+	if a.DupStale && !a.Invalid {
+		evs = append(evs, Ev{K: "deliver", A: "dup"}, Ev{K: "deliver", A: "stale"})
 	}
 	if a.Head {
 		pendingHead := false
@@ -234,7 +239,7 @@ func exploreSync(t *testing.T, run *vk.Run, id string, cfg SCfg, depth int, a ev
 func TestC03(t *testing.T) {
 	run := vk.NewRun("C03", "model_checking")
 	defer run.Finish()
-	run.SetRule("breadth-first exploration of event histories on the real Syncer + real Store (scripted contract-abiding getter whose calls are held until an answer event, capturing subscriber): events = deliver {next, skip 2/3, duplicate, stale, forged adjacent, forged far (bifurcation), bad link, wrong chain, future, zero} | Head() call | answer of the oldest held getter call {full, prefix, error; trusted-head request in the lagging-peers pass: tip, soft+honest tip, soft+forged header 2 above the trusted head} | clock advance {40s (stale), 2h (expired)}; states deduplicated on (stored heights, pointers, pending ranges, sync state, held calls, spawned call status, clock); oracle in every state")
+	run.SetRule("breadth-first exploration of event histories on the real Syncer + real Store (scripted contract-abiding getter whose calls are held until an answer event, capturing subscriber): events = deliver {next, skip 2/3, duplicate, stale, forged adjacent, forged far (bifurcation), bad link, wrong chain, future, zero} | Head() call | answer of the oldest held getter call {full, prefix, error; trusted-head request in the lagging-peers pass: tip, the header gossip already delivered, the one above the trusted head, soft+honest tip, soft+forged header 2 above the trusted head; plus duplicate and stale deliveries} | clock advance {40s (stale), 2h (expired)}; states deduplicated on (stored heights, pointers, pending ranges, sync state, held calls, spawned call status, clock); oracle in every state")
 	run.Assume("interleavings are explored at event granularity: between two events the bubble runs to quiescence; finer-grained interleavings of the gossip handler with the sync loop are the schedule explorer's part")
 	run.Assume("attacker has no validator keys (forged headers carry a foreign signature); getter serves only the honest chain")
 
@@ -280,7 +285,7 @@ func TestC03(t *testing.T) {
 	// second pass: a Head() request towards lagging trusted peers is in flight while gossip runs ahead,
 	// and is then answered with a soft-failing (honest or forged) header; small alphabet, deeper
 	lag := SCfg{N: 9, S: 3, NetHead: 3, R: 2, Batch: 1, Hold: true, HeadAgeS: 100, FreshAfterS: true}
-	la := evAlpha{Head: true, Errors: true, SoftHead: true, Invalid: false}
+	la := evAlpha{Head: true, Errors: true, SoftHead: true, LagHead: true, DupStale: true, Invalid: false}
 	ldepth := vk.Pick(run, 6, 8)
 	r := exploreSync(t, run, "C03", lag, ldepth, la, dl, func(w *SWorld, hist []Ev) { c03Oracle(run, "C03", w, lag, hist) })
 	states += r.States
